@@ -264,6 +264,15 @@ func runC02(c *core.Ctx) {
 			c.ReportOracle("validate-panic", map[string]interface{}{"op": "val", "args": hexArgs(args), "schema": k.Srcs, "query": k.Query, "implementation": impl})
 			return
 		}
+		// wall-clock: an overrun is measured twice more and the least of the three counts, so that a
+		// loaded machine is not reported as a slow validator
+		for rep := 0; rep < 2 && el > time.Second; rep++ {
+			t1 := time.Now()
+			c.Impl(w, "val", args...)
+			if e2 := time.Since(t1); e2 < el {
+				el = e2
+			}
+		}
 		if el > time.Second {
 			c.ReportOracle("validate-slow", map[string]interface{}{"op": "val", "args": hexArgs(args), "query": k.Query, "seconds": el.Seconds(), "bytes": len(k.Query)})
 		}
@@ -311,6 +320,13 @@ func runC02(c *core.Ctx) {
 			if strings.HasPrefix(impl, "panic") {
 				c.ReportOracle("validate-panic", map[string]interface{}{"op": "val", "args": hexArgs(args), "schema": k.Srcs, "query": k.Query[:min(300, len(k.Query))], "rules": rs, "implementation": impl[:min(300, len(impl))]})
 				return
+			}
+			for rep := 0; rep < 2 && el.Seconds() > 1.0+float64(len(k.Query))/4096.0; rep++ {
+				t1 := time.Now()
+				c.Impl(w, "val", args...)
+				if e2 := time.Since(t1); e2 < el {
+					el = e2
+				}
 			}
 			if el.Seconds() > 1.0+float64(len(k.Query))/4096.0 {
 				c.ReportOracle("validate-slow", map[string]interface{}{"op": "val", "args": hexArgs(args), "query": k.Query[:min(300, len(k.Query))], "seconds": el.Seconds(), "bytes": len(k.Query)})
@@ -370,6 +386,19 @@ func runC02(c *core.Ctx) {
 		prev[a.family] = append(prev[a.family], net)
 		p := prev[a.family]
 		doubling := len(p) >= 4 && p[len(p)-1] > 0.002 && p[len(p)-1] > 6*p[len(p)-2] && p[len(p)-2] > 6*p[len(p)-3]
+		// wall-clock: what looks like an overrun is measured twice more and the least of the three counts
+		for rep := 0; rep < 2 && (el > budget || doubling); rep++ {
+			t1 := time.Now()
+			c.Impl(0, "val", args...)
+			if e2 := time.Since(t1).Seconds(); e2 < el {
+				el = e2
+				if net = el - base; net < 1e-5 {
+					net = 1e-5
+				}
+				p[len(p)-1] = net
+			}
+			doubling = len(p) >= 4 && p[len(p)-1] > 0.002 && p[len(p)-1] > 6*p[len(p)-2] && p[len(p)-2] > 6*p[len(p)-3]
+		}
 		if el > budget || doubling {
 			c.ReportOracle("validation-time", map[string]interface{}{"op": "val", "args": hexArgs(args), "family": a.family, "size": a.size, "bytes": len(a.query),
 				"seconds": el, "budget_seconds": budget, "times_by_size": p})
